@@ -1245,12 +1245,15 @@ class Evaluator:
         fr.vars = dict(base)
         self.exec_block(st.body, fr)
         va = fr.vars
+        # decisions taken INSIDE an arm (a property read that branches) stay part of the path condition: the merged value depends on them
+        extra = [x for x in self.pc[len(saved_pc) + 1:]]
         self.pc = list(saved_pc)
         self.pc.append((c, False))
         fr.vars = dict(base)
         self.exec_block(st.orelse, fr)
         vb = fr.vars
-        self.pc = saved_pc
+        extra += [x for x in self.pc[len(saved_pc) + 1:] if x not in extra]
+        self.pc = saved_pc + extra
         out = dict(base)
         for k in set(va) | set(vb):
             a = va.get(k, base.get(k))
